@@ -20,7 +20,7 @@ RULE = ("(machine) Hypothesis generates 1-5 markets (initial 1e-3..1e6, drift +-
         "remembered value at a time <= t of a later change is returned unchanged, and with zero volatility (or with the normal "
         "source replaced by zeros in half of the cases) the path equals level * exp(drift * dt) from the last change point (rel "
         "1e-9). Non-trivial = >=2 correlated markets with volatility and >=1 change or shock after a chunk boundary. (stats) "
-        "20k-50k log-returns per case: sample mean within 6 vol/sqrt(N) of drift, sample std within 6 vol/sqrt(2N) of vol, "
+        "20k-50k log-returns per case, in half of the cases measured AFTER a mid-run change of a volatility, drift or correlation (at t = 100..1000): sample mean within 6 vol/sqrt(N) of drift, sample std within 6 vol/sqrt(2N) of vol, "
         "sample correlation within 6(1-rho^2)/sqrt(N) of rho. (probe) the normal source is replaced by cyclic unit vectors so "
         "the returns expose the mixing matrix A: A A^T must equal vol*corr*vol (rel 1e-9) and the mean must equal the drift.")
 ASSUMPTIONS = ["a change or shock is applied at a time t <= the largest time generated since the last change (every caller in pams respects this)",
@@ -269,8 +269,20 @@ def stats_cases(draw, tier):
         m["initial"] = draw(st.sampled_from([100.0, 300.0, 5.0]))
         m["drift"] = draw(st.sampled_from([0.0, 0.0005, -0.001, 0.002]))
     corr = draw(corr_matrix(n)) if n >= 2 else None
+    change = None
+    if draw(st.booleans()):
+        # parameters changed in mid-run (after at least one generated chunk): the moments AFTER the change are tested
+        kind = draw(st.sampled_from(["vol", "vol", "drift", "corr"] if n >= 2 else ["vol", "vol", "drift"]))
+        i = draw(st.integers(0, n - 1))
+        at = draw(st.sampled_from([100, 150, 250, 1000]))
+        if kind == "vol":
+            change = {"kind": "vol", "market": i, "value": draw(st.sampled_from([0.002, 0.02, 0.1])), "at": at}
+        elif kind == "drift":
+            change = {"kind": "drift", "market": i, "value": draw(st.sampled_from([0.003, -0.002, 0.0])), "at": at}
+        else:
+            change = {"kind": "corr", "market": 0, "other": 1, "value": draw(st.sampled_from([-0.6, 0.0, 0.7])), "at": at}
     return {"seed": draw(st.integers(0, 2**31 - 1)), "markets": markets, "corr": corr, "N": 20000 if tier == "quick" else 50000,
-            "chunked": draw(st.booleans())}
+            "chunked": draw(st.booleans()), "change": change}
 
 
 def stats_check(case):
@@ -278,16 +290,54 @@ def stats_check(case):
     N = case["N"]
     n = len(case["markets"])
     series = []
+    ch = case.get("change")
+    markets = [dict(m) for m in case["markets"]]
+    t0 = 0
+    if ch is not None:
+        t0 = ch["at"]
+        before = [_call(f.get_fundamental_prices, market_id=i, times=range(t0 + 1)) for i in range(n)]
+        if ch["kind"] == "vol":
+            if ch["value"] == markets[ch["market"]]["vol"]:
+                ch = None
+            else:
+                _call(f.change_volatility, market_id=ch["market"], volatility=ch["value"], time=t0)
+                markets[ch["market"]]["vol"] = ch["value"]
+        elif ch["kind"] == "drift":
+            _call(f.change_drift, market_id=ch["market"], drift=ch["value"], time=t0)
+            markets[ch["market"]]["drift"] = ch["value"]
+        else:
+            key = (1, 0) if (1, 0) in pairs else (0, 1)
+            trial = dict(pairs)
+            trial[key] = ch["value"]
+            M = np.eye(n)
+            for (a, b), c in trial.items():
+                M[a, b] = M[b, a] = c
+            if np.min(np.linalg.eigvalsh(M)) < 1e-3:
+                ch = None
+            else:
+                if ch["value"] == 0.0 and key in pairs:
+                    _call(f.remove_correlation, market_id1=0, market_id2=1, time=t0)
+                    trial.pop(key)
+                elif ch["value"] != 0.0:
+                    _call(f.set_correlation, market_id1=0, market_id2=1, corr=ch["value"], time=t0)
+                else:
+                    trial.pop(key, None)
+                pairs = trial
+        if ch is not None:
+            after = [_call(f.get_fundamental_prices, market_id=i, times=range(t0 + 1)) for i in range(n)]
+            if after != before:
+                raise Violation("C12.history_changed", f"a {ch['kind']} change at time {t0} altered values at times <= {t0}")
+    case = dict(case, markets=markets)
     if case["chunked"]:
-        for t in range(0, N + 1, 997):
+        for t in range(t0, t0 + N + 1, 997):
             _call(f.get_fundamental_price, market_id=0, time=t)
     for i in range(n):
-        series.append(np.array(_call(f.get_fundamental_prices, market_id=i, times=range(N + 1))))
+        series.append(np.array(_call(f.get_fundamental_prices, market_id=i, times=range(t0, t0 + N + 1))))
     rets = [np.diff(np.log(s)) for s in series]
     for i, m in enumerate(case["markets"]):
         if not np.all(series[i] > 0) or not np.all(np.isfinite(series[i])):
             raise Violation("C12.positive_finite", f"market {i}")
-        if series[i][0] != m["initial"]:
+        if t0 == 0 and series[i][0] != m["initial"]:
             raise Violation("C12.initial_value", f"market {i}")
         mean, std = float(np.mean(rets[i])), float(np.std(rets[i], ddof=1))
         if abs(mean - m["drift"]) > 6 * m["vol"] / math.sqrt(N):
@@ -303,8 +353,8 @@ def stats_check(case):
         r = float(np.corrcoef(rets[0], rets[1])[0, 1])
         if abs(r) > 6 / math.sqrt(N):
             raise Violation("C12.correlation", f"uncorrelated markets 0,1 show sample correlation {r!r}")
-    return CaseInfo(nontrivial=True, classes=["correlated"] if pairs else ["uncorrelated"], steps=N,
-                    sample={"markets": case["markets"], "corr": case["corr"], "N": N, "seed": case["seed"]})
+    return CaseInfo(nontrivial=True, classes=(["correlated"] if pairs else ["uncorrelated"]) + ([f"change_{ch['kind']}"] if ch is not None else []), steps=N,
+                    sample={"markets": case["markets"], "corr": case["corr"], "N": N, "seed": case["seed"], "change": ch})
 
 
 # -- algebraic probe --------------------------------------------------------------------------------------------------
@@ -364,7 +414,7 @@ def probe_check(case):
 
 PARTS = {
     "machine": {"check": machine_check, "strategy": machine_cases, "budget": {"quick": 800, "thorough": 12000}},
-    "stats": {"check": stats_check, "strategy": stats_cases, "budget": {"quick": 48, "thorough": 640}},
+    "stats": {"check": stats_check, "strategy": stats_cases, "budget": {"quick": 96, "thorough": 960}},
     "probe": {"check": probe_check, "strategy": probe_cases, "budget": {"quick": 400, "thorough": 6000}},
 }
 
